@@ -549,8 +549,10 @@ class World:
             elif w == "decls":
                 # an unrelated program with n subroutines, compiled: n declarations evaluated and kept
                 subs = [pt.Subroutine(pt.TealType.uint64)(_churn_body(i)) for i in range(n)]
-                prog = pt.Seq(*[pt.Pop(f()) for f in subs], pt.Int(1))
-                junk = [subs, pt.compileTeal(prog, pt.Mode.Application, version=6 if n % 2 else 8)]
+                junk = [subs]
+                for c in range(0, n, 40):  # several unrelated programs of 40 subroutines each
+                    prog = pt.Seq(*[pt.Pop(f()) for f in subs[c : c + 40]], pt.Int(1))
+                    junk.append(pt.compileTeal(prog, pt.Mode.Application, version=6 if n % 2 else 8))
             else:
                 junk = [pt.Subroutine(pt.TealType.uint64)(_churn_body(i)) for i in range(n)]
             self.churn_keep.append(junk if n % 2 else None)
